@@ -363,6 +363,9 @@ func (g *Gen) captchaToken(channel string) string {
 		return "garbage.token"
 	case 5:
 		return Captcha(key, fmt.Sprintf("okay:join:%d", ts), "chal") // wrong number of parts
+	case 6:
+		// more than three dot-separated parts (all valid base64)
+		return Captcha(key, fmt.Sprintf("okay:join:%d:%s", ts, channel), "chal") + g.pick([]string{".YWJj", ".", ".YWJj.YWJj"})
 	}
 	return Captcha(key, fmt.Sprintf("okay:join:%d:%s", ts, channel), "chal")
 }
@@ -647,7 +650,14 @@ func (g *Gen) linkLine(s *gsess) string {
 		}
 		return assemble("", "NICK", []string{n, "1", "1422134861", "services", "localhost.net", "services.localhost.net", "0"}, true, g.pick([]string{"Operator Server", "svc", ""}))
 	case "JOIN", "PART":
-		return assemble(pfx, cmd, []string{g.pick(chanPool)}, false, "")
+		ch := g.pick(chanPool)
+		if g.R.Intn(3) == 0 {
+			ch = ch + "," + g.pick(chanPool)
+			if g.R.Intn(2) == 0 {
+				ch = ch + "," + g.pick(chanPool)
+			}
+		}
+		return assemble(pfx, cmd, []string{ch}, false, "")
 	case "KICK":
 		return assemble(pfx, cmd, []string{g.anyChan(), g.anyNick()}, true, g.anyText())
 	case "KILL":
@@ -838,7 +848,7 @@ func (g *Gen) scenario() {
 	}
 	ch := g.pick([]string{"#s1", "#s2", "#S1", "#s3"})
 	g.line(a, "JOIN "+ch)
-	switch g.R.Intn(9) {
+	switch g.R.Intn(11) {
 	case 0: // key
 		g.line(a, "MODE "+ch+" +k sekrit")
 		g.line(b, "JOIN "+ch+" "+g.pick([]string{"sekrit", "wrong", "", "SEKRIT", "sekrit,x"}))
@@ -912,6 +922,29 @@ func (g *Gen) scenario() {
 		g.line(b, "NICK "+g.caseVariant(b.nick))
 		g.line(a, "PRIVMSG "+ch+" :after nick change")
 		g.line(a, "MODE "+ch+" +o "+b.nick)
+	case 9: // invitation to somebody who is away; invitation that outlives its channel
+		ch = g.pick([]string{"#Lounge", "#lounge", "#S1"})
+		g.line(a, "JOIN "+ch)
+		g.line(b, "AWAY :out for lunch")
+		g.line(a, "MODE "+ch+" +i")
+		g.line(a, "INVITE "+b.nick+" "+ch)
+		g.line(a, "PART "+ch) // the channel is destroyed, the invitation must go with it
+		c := rs[g.R.Intn(len(rs))]
+		g.line(c, "JOIN "+ch)
+		g.line(c, "MODE "+ch+" +i")
+		g.line(b, "JOIN "+ch)
+		g.line(b, "AWAY")
+	case 10: // several pseudo-clients / channels in one services line
+		for _, s := range g.live() {
+			if s.link && len(s.pseudo) > 0 {
+				p := g.pick(s.pseudo)
+				g.line(s, assemble(p, "JOIN", []string{"#s1,#s2,#S3"}, false, ""))
+				g.line(a, "JOIN #s2")
+				g.line(b, "JOIN #S3")
+				g.line(s, assemble(p, "PART", []string{"#s1,#s2,#S3"}, false, ""))
+				break
+			}
+		}
 	case 8: // oper-only commands by a plain client
 		g.line(b, "KILL "+a.nick+" :because")
 		g.line(b, "GLINE "+a.nick+" :because")
